@@ -1,6 +1,8 @@
 import VermouthModel.C10_System
+import VermouthModel.C10_Cli
 import Generated.C10Radii
 import Generated.C10Search
+import Generated.C10Cli
 open Proto C10
 
 /-- atom name token: `-` = no 'atomname' attribute, `0` = the attribute is there with value None -/
@@ -90,6 +92,12 @@ def handle (_ : Unit) (toks : List Tok) : Unit × String :=
         | Outcome.unchanged => pure "unchanged"
         | Outcome.keyErrorPosition => pure "error:KeyError:position"
         | Outcome.ok S R => pure (render S (unionFlags 0 ms) R)
+    | [Tok.str "cli", opt, fudge] => do
+        -- `-bonds-from opt -bonds-fudge fudge` (`-` = option not given) -> arguments of MakeBonds
+        match cliModes cliTable (← opt.optStr?), cliFudge cliTable (← fudge.optStr?) with
+        | none, _ => pure "rejected"
+        | some _, none => pure "fudge-not-modelled"
+        | some (an, ad), some (p, q) => pure (encList [encBool an, encBool ad, encNat p, encNat q])
     | _ => none
   ((), r.getD "bad-op")
 
